@@ -183,10 +183,11 @@ PathHolds(cfg, s) ==
      /\ HasRet(s)
      /\ IF ~RetOf(s).iserr
         THEN ~x.cut /\ x.rest = <<>> /\ v = x.visits /\ RetOf(s).act = x.act
-        ELSE \* the run ended early: at the leaf where the actions ran out, or before reaching it
+        ELSE \* the run ended early: at the leaf where the recorded actions ran out (that leaf was visited and failed),
+             \* or - only if the context was cancelled - before reaching it
              /\ x.rest = <<>>
              /\ \/ v = x.visits
-                \/ x.cut /\ ~x.nostart /\ v = SubSeq(x.visits, 1, Len(x.visits) - 1)
+                \/ x.cut /\ ~x.nostart /\ (s.call.ctxdone \/ s.cidx # 0) /\ v = SubSeq(x.visits, 1, Len(x.visits) - 1)
 
 (* ---------------------------------------------------------------------- *)
 (* the equivalent FLATTENED state machine of a hierarchy of flows (C10):    *)
